@@ -4,7 +4,7 @@
    graph is touched. *)
 From Coq Require Import String.
 From Coq Require Import List NArith ZArith Bool Lia.
-From FIM Require Import Base.Str Model.Serial1Text Model.Serial1Graph Model.Serial1Corr Model.Serial1Disjoint.
+From FIM Require Import Base.Str Model.Serial1Text Model.Serial1Graph Model.Serial1Json Model.Serial1Corr Model.Serial1Disjoint.
 From FIM Require Import Proofs.Serial1Text Proofs.Serial1Doc Proofs.Serial1Store Proofs.Serial1Main.
 Import ListNotations.
 Open Scope N_scope.
@@ -157,4 +157,13 @@ Proof.
   intro E. unfold d_serialize_graph. rewrite E.
   destruct f; [exists (TGraphML {| d_keys := []; d_nodes := []; d_edges := [] |})|exists (TJson {| j_nodes := []; j_links := [] |})];
     (split; [reflexivity|]); destruct ep; reflexivity.
+Qed.
+
+(* ---------- the boolean check run on every API-built snapshot implies every hypothesis of the theorems ---------- *)
+Theorem api_check_domain tbl g : api_graph_ok tbl g = true ->
+  fmt_ok GraphMLFmt g = true /\ fmt_ok JsonFmt g = true /\ graph_ids_ok g = true
+  /\ names_ok tbl = true /\ graph_json_ok g = true /\ Serial1Json.graph_json_text_ok tbl g = true.
+Proof.
+  unfold api_graph_ok. rewrite !andb_true_iff. intros [[[[[W I] J] _] N] T].
+  simpl. rewrite W, (graph_wf_shape g W), J. repeat split; assumption.
 Qed.
